@@ -16,6 +16,7 @@ RULE = ('logit matrices T(3-40) x C(3-12): dense at several temperatures, sparse
         'non-trivial = matrix with at least 2 labels / bag with at least 2 hypotheses; distinct = hash of the matrix or bag Lines of more than 1000 frames. One frame per character inside a padded matrix; threshold through PageDecoder.decode_line; confidences written by the engine-merging script; raw scores up to magnitude 1000. A word of tied letters in a line whose median is within 1e-5 of 1; two character tables on one page; a second export after new logits.')
 RULE += ' Round 6: PageDecoder built from a configuration with thresholds above 1; bags with some LM scores missing.'
 RULE += ' Round 7: An LM score of exactly zero in a bag; a line without frames.'
+RULE += ' Round 8: Lines whose pruned entries are stored explicitly.'
 ASSUMPTIONS = ['shift invariance is judged on matrices whose entries are all stored (sparse-with-floor replaces pruned entries by a fixed floor, so a shift of the stored ones is not a shift of "all logits of the frame")',
                'no stored logit is exactly 0.0', 'tolerance 1e-9 (float64)']
 N = {'quick': 3000, 'thorough': 100000}
